@@ -148,12 +148,16 @@ pub struct ObjSt {
     pub expect_panicked: bool,
     /// the last owner is being dropped by this task (stage tracking)
     pub dropping_by: Option<usize>,
+    /// an operation of this object has panicked (injected by the case): from then on nothing may run on it
+    pub panic_injected: Option<OpId>,
 }
 
 #[derive(Default)]
 pub struct GateSt {
     pub open: bool,
     pub opened_at: u64,
+    /// opened by the root in the final stage (after every earlier phase has gone quiet)
+    pub opened_in_final: bool,
     /// (await instance, waker)
     pub wakers: Vec<(usize, Waker)>,
     pub next_key: usize,
@@ -214,6 +218,10 @@ pub struct Violation {
 /// Counters used to classify cases (non-triviality rules, evidence histograms)
 #[derive(Clone, Debug, Default)]
 pub struct Stats {
+    /// a stream ended because the library dropped the stream that owned its sender (chained pipes)
+    pub chained_closes: u32,
+    /// a consumer's throw-away poll of a pipe output found nothing, so it then waited with a different waker
+    pub consumer_probe_pending: u32,
     /// Step::SelfWake polls (wake-up delivered during the poll)
     pub self_wakes: u32,
     /// last-owner drops performed by a thread that is unwinding from its own panic
@@ -276,6 +284,10 @@ pub struct Inner {
     pub final_stage: bool,
     /// the case injects a panic: callers may stay blocked forever on the panicked object and keep handles alive
     pub panic_case: bool,
+    /// logical time of the injected panic (0 = none yet)
+    pub panic_clock: u64,
+    /// panic case without an aftermath phase: nothing is deliberately scheduled once the panic has happened
+    pub quiet_panic_variant: bool,
     /// the root has started to release its handles (until then, with root_holds, every object certainly has an owner)
     pub root_released: bool,
 }
@@ -411,7 +423,10 @@ impl World {
             }
             let o = i.ops[op].clone();
             let ob = &i.objs[obj];
-            if o.runs > 1 {
+            if let Some(pop) = ob.panic_injected {
+                // (checked first: what the revived queue runs may be a closure whose caller has long unwound)
+                fail = Some(("C15", "ran-after-panic", format!("operation #{} ({:?}) started on o{} after operation #{} of that object had panicked: a panicked queue must not run anything again", op, kind, obj, pop)));
+            } else if o.runs > 1 {
                 fail = Some(("C03", "duplicated", format!("operation #{} ran {} times", op, o.runs)));
             } else if ob.dead {
                 fail = Some(("C05", "use-after-destroy", format!("operation #{} started after the value of o{} was destroyed", op, obj)));
@@ -700,6 +715,9 @@ impl World {
             }
             gs.open = true;
             gs.opened_at = c;
+            let fin = i.final_stage;
+            let gs = &mut i.gates[g];
+            gs.opened_in_final = fin;
             let now = if rt::in_task() { rt::steps() } else { 0 };
             let mut woke = false;
             let mut racy = false;
